@@ -4,7 +4,7 @@ in EXTRA) on a scratch worktree of /repo, and writes seeded/<id>/meta.json + see
 usage: tools/seed_matrix.py [seed ids...]"""
 import json, os, re, subprocess, sys, time, shutil
 VERIF = os.path.dirname(os.path.dirname(os.path.abspath(__file__)))
-EXTRA = {"C01-E": ["C05", "C07"], "C04-E": ["C06"], "C06-F": ["C04"], "C15-F": ["C07"], "C13-F": ["C16"], "C02-F": ["C03"], "C03-E": ["C02"], "C05-F": ["C01"], "C15-E": ["C16"], "C14-E": ["C07"], "C06-C": ["C19"], "C13-C": ["C16"], "C08-D": ["C17"], "C05-C": ["C04"], "C05-B": ["C07"], "C07-A": ["C19"], "C07-B": ["C01"], "C04-B": ["C05"], "C17-B": ["C18"], "C13-A": ["C12"], "C02-A": ["C03"], "C19-B": ["C03"]}
+EXTRA = {"C03-F": ["C04"], "C01-E": ["C05", "C07"], "C04-E": ["C06"], "C06-F": ["C04"], "C15-F": ["C07"], "C13-F": ["C16"], "C02-F": ["C03"], "C03-E": ["C02"], "C05-F": ["C01"], "C15-E": ["C16"], "C14-E": ["C07"], "C06-C": ["C19"], "C13-C": ["C16"], "C08-D": ["C17"], "C05-C": ["C04"], "C05-B": ["C07"], "C07-A": ["C19"], "C07-B": ["C01"], "C04-B": ["C05"], "C17-B": ["C18"], "C13-A": ["C12"], "C02-A": ["C03"], "C19-B": ["C03"]}
 NEEDS = json.load(open(os.path.join(VERIF, "seeded", "needs.json"))) if os.path.exists(os.path.join(VERIF, "seeded", "needs.json")) else {}
 
 def main():
